@@ -108,7 +108,7 @@ Qed.
 (* does the op push on the unacknowledged queue *)
 Definition pushes (cfg : config) (o : op) : bool :=
   match c_role cfg with
-  | RClient => c_sm cfg && match o with OSend _ nz => negb nz | _ => true end
+  | RClient => c_sm cfg && match o with OSend _ nz => negb nz | OSendRaw _ nz => negb nz | _ => true end
   | RComponent => false
   end.
 
@@ -126,47 +126,67 @@ Definition wrap (cfg : config) (o : op) (e : option werr) : result :=
 Lemma attempts_reaches : forall cfg o, attempts cfg o = true -> reaches cfg o = true.
 Proof.
   intros cfg o. unfold attempts, reaches.
-  destruct o as [d nz|s|d t]; try destruct t; destruct (c_conn cfg); simpl; auto.
+  destruct o as [d nz|s nz|d t]; try destruct t; destruct (c_conn cfg); simpl; auto.
 Qed.
 
 Lemma attempts_up : forall cfg o, attempts cfg o = true -> c_conn cfg = CUp.
 Proof.
   intros cfg o. unfold attempts.
-  destruct o as [d nz|s|d t]; try destruct t; destruct (c_conn cfg); simpl; auto; discriminate.
+  destruct o as [d nz|s nz|d t]; try destruct t; destruct (c_conn cfg); simpl; auto; discriminate.
 Qed.
 
-(* an op that gets to transport.Write: optional push, then that one call *)
+Lemma drop_if_sock : forall b st, s_sock (drop_if b st) = s_sock st.
+Proof. intros [|] st; reflexivity. Qed.
+Lemma drop_if_log : forall b st, s_log (drop_if b st) = s_log st.
+Proof. intros [|] st; reflexivity. Qed.
+
+(* the state after the write: a held packet the transport refused leaves the queue *)
+Definition after (b : bool) (tw : state * option werr) : state :=
+  match snd tw with None => fst tw | Some _ => drop_if b (fst tw) end.
+
+Lemma after_sock : forall b tw, s_sock (after b tw) = s_sock (fst tw).
+Proof. intros b [st [e|]]; unfold after; simpl; [apply drop_if_sock|reflexivity]. Qed.
+Lemma after_log : forall b tw, s_log (after b tw) = s_log (fst tw).
+Proof. intros b [st [e|]]; unfold after; simpl; [apply drop_if_log|reflexivity]. Qed.
+
+Lemma hold_write_after : forall cfg so lo st b d,
+  hold_write cfg so lo st b d =
+  (after b (transport_write cfg so lo (push_if b st d) d),
+   snd (transport_write cfg so lo (push_if b st d) d)).
+Proof.
+  intros. unfold hold_write, after.
+  destruct (transport_write cfg so lo (push_if b st d) d) as [st2 [e|]]; reflexivity.
+Qed.
+
+(* an op that gets to transport.Write: optional push, that one call, and the
+   entry dropped again when the call failed *)
 Lemma step_reach : forall cfg so lo st o, reaches cfg o = true ->
   step cfg so lo st o =
-    (fst (transport_write cfg so lo (push_if (pushes cfg o) st (op_data o)) (op_data o)),
+    (after (pushes cfg o) (transport_write cfg so lo (push_if (pushes cfg o) st (op_data o)) (op_data o)),
      wrap cfg o (snd (transport_write cfg so lo (push_if (pushes cfg o) st (op_data o)) (op_data o)))).
 Proof.
   intros cfg so lo st o Ha. unfold pushes, wrap.
   assert (Hc : forall (X : Type) (a b : X), match c_conn cfg with CNone => a | _ => b end = b).
   { intros X a b. unfold reaches in Ha.
-    destruct o as [d nz|s|d t]; try destruct t; destruct (c_conn cfg); auto; discriminate. }
-  destruct o as [d nz|s|d t]; simpl in *.
-  - unfold send. rewrite Hc. destruct (c_role cfg); simpl.
-    + destruct (transport_write cfg so lo (push_if (c_sm cfg && negb nz) st d) d) as [st2 e].
-      simpl. destruct e; reflexivity.
-    + destruct (transport_write cfg so lo st d) as [st2 e]. simpl. destruct e; reflexivity.
-  - unfold send_raw. rewrite Hc. destruct (c_role cfg); simpl.
-    + rewrite andb_true_r.
-      destruct (transport_write cfg so lo (push_if (c_sm cfg) st s) s) as [st2 e].
-      simpl. destruct e; reflexivity.
-    + destruct (transport_write cfg so lo st s) as [st2 e]. simpl. destruct e; reflexivity.
-  - destruct t; try discriminate; unfold send; rewrite Hc; destruct (c_role cfg); simpl.
-    + destruct (transport_write cfg so lo (push_if (c_sm cfg && true) st d) d) as [st2 e].
-      simpl. destruct e; reflexivity.
-    + destruct (transport_write cfg so lo st d) as [st2 e]. simpl. destruct e; reflexivity.
-    + destruct (transport_write cfg so lo (push_if (c_sm cfg && true) st d) d) as [st2 e].
-      simpl. destruct e; reflexivity.
-    + destruct (transport_write cfg so lo st d) as [st2 e]. simpl. destruct e; reflexivity.
+    destruct o as [d nz|s nz|d t]; try destruct t; destruct (c_conn cfg); auto; discriminate. }
+  destruct o as [d nz|s nz|d t]; simpl in *.
+  - unfold send. rewrite Hc. destruct (c_role cfg); rewrite hold_write_after; simpl.
+    + destruct (snd (transport_write cfg so lo (push_if (c_sm cfg && negb nz) st d) d)); reflexivity.
+    + destruct (snd (transport_write cfg so lo st d)); reflexivity.
+  - unfold send_raw. rewrite Hc. destruct (c_role cfg); rewrite hold_write_after; simpl.
+    + destruct (snd (transport_write cfg so lo (push_if (c_sm cfg && negb nz) st s) s)); reflexivity.
+    + destruct (snd (transport_write cfg so lo st s)); reflexivity.
+  - destruct t; try discriminate; unfold send; rewrite Hc; destruct (c_role cfg);
+      rewrite hold_write_after; simpl.
+    + destruct (snd (transport_write cfg so lo (push_if (c_sm cfg && true) st d) d)); reflexivity.
+    + destruct (snd (transport_write cfg so lo st d)); reflexivity.
+    + destruct (snd (transport_write cfg so lo (push_if (c_sm cfg && true) st d) d)); reflexivity.
+    + destruct (snd (transport_write cfg so lo st d)); reflexivity.
 Qed.
 
 Lemma step_attempt : forall cfg so lo st o, attempts cfg o = true ->
   step cfg so lo st o =
-    (fst (transport_write cfg so lo (push_if (pushes cfg o) st (op_data o)) (op_data o)),
+    (after (pushes cfg o) (transport_write cfg so lo (push_if (pushes cfg o) st (op_data o)) (op_data o)),
      wrap cfg o (snd (transport_write cfg so lo (push_if (pushes cfg o) st (op_data o)) (op_data o)))).
 Proof. intros. apply step_reach, attempts_reaches. assumption. Qed.
 
@@ -174,7 +194,7 @@ Lemma step_noreach : forall cfg so lo st o, reaches cfg o = false ->
   fst (step cfg so lo st o) = st /\
   (snd (step cfg so lo st o) = RReject \/ snd (step cfg so lo st o) = RNotConn).
 Proof.
-  intros cfg so lo st o Ha. unfold reaches in Ha. destruct o as [d nz|s|d t]; simpl in *.
+  intros cfg so lo st o Ha. unfold reaches in Ha. destruct o as [d nz|s nz|d t]; simpl in *.
   - unfold send. destruct (c_conn cfg); try discriminate. simpl. auto.
   - unfold send_raw. destruct (c_conn cfg); try discriminate. simpl. auto.
   - destruct t; simpl; auto; unfold send; destruct (c_conn cfg); try discriminate; simpl; auto.
@@ -196,8 +216,8 @@ Proof.
   intros cfg so lo st o Ha. destruct (reaches cfg o) eqn:Hr.
   - assert (Hd : is_up (c_conn cfg) = false).
     { unfold attempts, reaches in *.
-      destruct o as [d nz|s|d t]; try destruct t; auto; discriminate. }
-    rewrite (step_reach _ _ _ _ _ Hr). simpl. rewrite (tw_down _ _ _ _ _ Hd). simpl.
+      destruct o as [d nz|s nz|d t]; try destruct t; auto; discriminate. }
+    rewrite (step_reach _ _ _ _ _ Hr). simpl. rewrite after_sock, after_log, (tw_down _ _ _ _ _ Hd). simpl.
     rewrite push_if_sock, push_if_log. split; [reflexivity|]. split; [reflexivity|].
     unfold wrap. destruct (c_role cfg), o; discriminate.
   - destruct (step_noreach cfg so lo st o Hr) as [H1 H2]. rewrite H1.
@@ -217,7 +237,7 @@ Lemma step_sock : forall cfg so lo st o,
 Proof.
   intros cfg so lo st o. destruct (attempts cfg o) eqn:Ha.
   - rewrite (step_attempt _ _ _ _ _ Ha). simpl.
-    rewrite (tw_sock _ _ _ _ _ (attempts_up _ _ Ha)), push_if_sock. reflexivity.
+    rewrite after_sock, (tw_sock _ _ _ _ _ (attempts_up _ _ Ha)), push_if_sock. reflexivity.
   - destruct (step_noattempt cfg so lo st o Ha) as [H _]. rewrite H, app_nil_r. reflexivity.
 Qed.
 
@@ -312,16 +332,45 @@ Proof.
   apply (failure_reported _ _ _ _ _ Ha) in Hr. eapply write_ok_whole; eauto.
 Qed.
 
-(* only a client with stream management on touches the queue, and only for
-   packets that are not SM requests/answers *)
+Definition is_nil (r : result) : bool := match r with RNil => true | _ => false end.
+
+Lemma q_drop_push_items : forall q d, q_items (q_drop_last (q_push q d)) = q_items q.
+Proof.
+  intros [items lastid] d. unfold q_drop_last, q_push, q_items. simpl.
+  rewrite rev_app_distr. simpl. rewrite Z.eqb_refl. simpl. apply removelast_last.
+Qed.
+
+(* only a client with active stream management touches the queue, only for
+   packets that are not SM requests/answers, and only a packet whose write
+   succeeded stays on it *)
 Lemma step_queue : forall cfg so lo st o,
   s_queue (fst (step cfg so lo st o)) =
-  if reaches cfg o && pushes cfg o then q_push (s_queue st) (op_data o) else s_queue st.
+  if reaches cfg o && pushes cfg o then
+    if is_nil (snd (step cfg so lo st o)) then q_push (s_queue st) (op_data o)
+    else q_drop_last (q_push (s_queue st) (op_data o))
+  else s_queue st.
 Proof.
   intros cfg so lo st o. destruct (reaches cfg o) eqn:Ha; simpl.
-  - rewrite (step_reach _ _ _ _ _ Ha). simpl. rewrite tw_queue.
-    destruct (pushes cfg o); reflexivity.
+  - rewrite (step_reach _ _ _ _ _ Ha). unfold after.
+    pose proof (tw_queue cfg so lo (push_if (pushes cfg o) st (op_data o)) (op_data o)) as Hq.
+    remember (pushes cfg o) as b eqn:Hb. clear Hb.
+    destruct (transport_write cfg so lo (push_if b st (op_data o)) (op_data o))
+      as [st2 [e|]]; cbn [fst snd] in *.
+    + replace (is_nil (wrap cfg o (Some e))) with false
+        by (unfold wrap; destruct (c_role cfg), o; reflexivity).
+      destruct b; simpl; rewrite Hq; reflexivity.
+    + unfold wrap. simpl. destruct b; simpl; rewrite Hq; reflexivity.
   - destruct (step_noreach cfg so lo st o Ha) as [H _]. rewrite H. reflexivity.
+Qed.
+
+Lemma step_queue_items : forall cfg so lo st o,
+  q_items (s_queue (fst (step cfg so lo st o))) =
+  if reaches cfg o && pushes cfg o && is_nil (snd (step cfg so lo st o))
+  then q_items (q_push (s_queue st) (op_data o)) else q_items (s_queue st).
+Proof.
+  intros. rewrite step_queue.
+  destruct (reaches cfg o && pushes cfg o); simpl; [|reflexivity].
+  destruct (is_nil (snd (step cfg so lo st o))); [reflexivity|apply q_drop_push_items].
 Qed.
 
 (* ------------------------------------------------------------------ sequences *)
@@ -430,8 +479,18 @@ Proof.
       destruct (step_noreach _ so lo a o Ha) as [_ H1].
       destruct (step_noreach _ so lo' b o Hb) as [_ H2].
       unfold reaches in Ha. simpl in Ha.
-      destruct o as [d nz|s|d t]; try destruct t; destruct c; try discriminate; reflexivity.
-  - unfold same_but_log. rewrite !step_sock, !step_queue, Hs, Hq. split; reflexivity.
+      destruct o as [d nz|s nz|d t]; try destruct t; destruct c; try discriminate; reflexivity.
+  - assert (Hres : snd (step (mkC r sm true c) so lo a o) = snd (step (mkC r sm false c) so lo' b o)).
+    { destruct (reaches (mkC r sm true c) o) eqn:Ha.
+      + assert (Hb : reaches (mkC r sm false c) o = true) by exact Ha.
+        rewrite (step_reach _ _ _ _ _ Ha), (step_reach _ _ _ _ _ Hb). simpl.
+        unfold transport_write. simpl. destruct (is_up c); [|reflexivity].
+        rewrite (logger_write_snd_healthy _ _ _ _ Hh Hc).
+        rewrite !push_if_sock, Hs. reflexivity.
+      + assert (Hb : reaches (mkC r sm false c) o = false) by exact Ha.
+        unfold reaches in Ha. simpl in Ha.
+        destruct o as [d nz|s nz|d t]; try destruct t; destruct c; try discriminate; reflexivity. }
+    unfold same_but_log. rewrite !step_sock, !step_queue, Hs, Hq, Hres. split; reflexivity.
 Qed.
 
 (* with a working log file and a conforming socket every call returns the same
